@@ -146,6 +146,11 @@ func (l *LSTM) Apply(inputs []tensor.Tensor) ([]tensor.Tensor, error) {
 		return nil, err
 	}
 
+	nActivations := 3
+	if len(l.activations) != nActivations {
+		return nil, ops.ErrInvalidAttribute(ops.ActivationsAttr, l)
+	}
+
 	fActivation, err := ops.GetActivation(l.activations[0])
 	if err != nil {
 		return nil, err
